@@ -7,7 +7,7 @@ ordering/equality are derived on a single-field struct; the align-up helpers hav
 import re
 
 from ..mir import deep_strip, tstr, strip_generics, is_call
-from .. import witness
+from .. import witness, derives
 
 CONFIGS = ("FULL", "XEN")
 THOROUGH_CONFIGS = ("MIN",)
@@ -199,9 +199,8 @@ def run(ctx, progs):
             ok = a and a["kind"] == "struct" and len(a["variants"][0]["fields"]) == 1
             ctx.ob("R19.2.single_field", adt, ok, f"{a['file']}:{a['line']}" if a else "", "address type must be a single-field struct so derived order is raw order")
             for tr in ("std::cmp::PartialEq", "std::cmp::Eq", "std::cmp::PartialOrd", "std::cmp::Ord", "std::clone::Clone", "std::marker::Copy"):
-                ims = prog.adt_impls(adt, tr)
-                ok = len(ims) == 1 and ims[0]["derived"]
-                ctx.ob("R19.2.derived", f"{adt}:{tr}", ok, "", f"{len(ims)} impl(s), derived={[i['derived'] for i in ims]}")
+                ok, why = derives.like_derive(prog, adt, tr)
+                ctx.ob("R19.2.derived", f"{adt}:{tr}", ok, "", f"derived, or hand-written with the derive's meaning on the single raw field: {why}")
             # Default is new(0)
             for b in prog.find(adt=adt, trait="std::default::Default"):
                 r = single_ret(b)
